@@ -55,6 +55,10 @@ use crate::{
   verif::types::*,
   RepresentationIdentifier,
 };
+#[cfg(not(feature = "security"))]
+use crate::no_security::SecurityPluginsHandle;
+#[cfg(feature = "security")]
+use crate::security::security_plugins::SecurityPluginsHandle;
 
 pub struct SimNode {
   pub node_id: u32,
@@ -77,6 +81,8 @@ pub struct SimNode {
   participant_status_rx: StatusChannelReceiver<DomainParticipantStatusEvent>,
   #[allow(dead_code)]
   discovery_db_event_rx: mio_channel::Receiver<()>,
+  /// the participant's security plugins (engine E3 nodes), handed to every Reader and Writer
+  security: Option<SecurityPluginsHandle>,
 }
 
 pub struct LocalReader {
@@ -158,6 +164,53 @@ pub fn discovered_writer(
   }
 }
 
+/// as `discovered_writer`, announced by the secure participant `party` (EndpointSecurityInfo from its
+/// access control plugin, as `SecureDiscovery` puts it into the publication data)
+#[cfg(feature = "security")]
+pub fn discovered_writer_of(
+  party: &crate::verif::secnode::SecParty,
+  writer: GuidBytes,
+  topic: &str,
+  type_name: &str,
+  qos: &QosPolicies,
+  unicast: &[SocketAddr],
+) -> DiscoveredWriterData {
+  let mut d = discovered_writer(writer, topic, type_name, qos, unicast, &[]);
+  d.publication_topic_data.security_info = party.writer_security_info(GUID::from_bytes(writer), topic);
+  d
+}
+
+#[cfg(feature = "security")]
+pub fn discovered_reader_of(
+  party: &crate::verif::secnode::SecParty,
+  reader: GuidBytes,
+  topic: &str,
+  type_name: &str,
+  qos: &QosPolicies,
+  unicast: &[SocketAddr],
+) -> DiscoveredReaderData {
+  let guid = GUID::from_bytes(reader);
+  let mut std = SubscriptionBuiltinTopicData::new(
+    guid,
+    Some(GUID::new(guid.prefix, EntityId::PARTICIPANT)),
+    topic.to_string(),
+    type_name.to_string(),
+    qos,
+    party.reader_security_info(guid, topic),
+  );
+  std.set_qos(qos);
+  DiscoveredReaderData {
+    reader_proxy: ReaderProxy {
+      remote_reader_guid: guid,
+      expects_inline_qos: false,
+      unicast_locator_list: locators(unicast),
+      multicast_locator_list: vec![],
+    },
+    subscription_topic_data: std,
+    content_filter: None,
+  }
+}
+
 pub fn discovered_reader(
   reader: GuidBytes,
   topic: &str,
@@ -190,6 +243,21 @@ pub fn discovered_reader(
 
 impl SimNode {
   pub fn new(node_id: u32, prefix_bytes: [u8; 12], domain_id: u16) -> Self {
+    Self::new_inner(node_id, prefix_bytes, domain_id, None)
+  }
+
+  /// a node of a secure participant: GUID prefix and plugins of `party`
+  #[cfg(feature = "security")]
+  pub fn new_secure(node_id: u32, party: &crate::verif::secnode::SecParty, domain_id: u16) -> Self {
+    Self::new_inner(node_id, party.prefix_bytes(), domain_id, Some(party.handle.clone()))
+  }
+
+  fn new_inner(
+    node_id: u32,
+    prefix_bytes: [u8; 12],
+    domain_id: u16,
+    security: Option<SecurityPluginsHandle>,
+  ) -> Self {
     simcore::set_node(node_id);
     let prefix = GuidPrefix::new(&prefix_bytes);
     let participant_guid = GUID::new(prefix, EntityId::PARTICIPANT);
@@ -244,7 +312,7 @@ impl SimNode {
       disc_cmd_tx,
       spdp_liveness_tx,
       participant_status_tx,
-      None,
+      security.clone(),
     );
 
     SimNode {
@@ -263,7 +331,18 @@ impl SimNode {
       spdp_liveness_rx,
       participant_status_rx,
       discovery_db_event_rx,
+      security,
     }
+  }
+
+  /// commands the event loop sent to Discovery (key exchange requests of a secure node); drained so
+  /// that the channel never fills
+  pub fn drain_discovery_commands(&mut self) -> usize {
+    let mut n = 0;
+    while self.disc_cmd_rx.try_recv().is_ok() {
+      n += 1;
+    }
+    n
   }
 
   fn enter(&self) {
@@ -305,7 +384,7 @@ impl SimNode {
       data_reader_command_receiver: cmd_rx,
       data_reader_waker: waker_slot.clone(),
       poll_event_sender: event_sender,
-      security_plugins: None,
+      security_plugins: self.security.clone(),
     };
     self
       .add_reader_tx
@@ -347,7 +426,7 @@ impl SimNode {
       like_stateless: false,
       qos_policies: qos.clone(),
       status_sender: status_tx,
-      security_plugins: None,
+      security_plugins: self.security.clone(),
     };
     self
       .add_writer_tx
